@@ -625,7 +625,7 @@ brk("c10-row-tuple-unwrapped", ["C10"], "src/backend/query_builder.rs",
                                 [SimpleExpr::Tuple(exprs)] => self.prepare_tuple(exprs, sql),
                                 _ => self.prepare_tuple(row, sql),
                             }
-                            false""", "C10.R4:row-data:prepare_tuple:exprs")
+                            false""", "C10.R4:row-data:table")
 brk("c11-numbered-arm-unguarded", ["C11", "C01"], "src/backend/query_builder.rs",
     """                            Some(Token::Unquoted(tok)) if numbered => {""",
     """                            Some(Token::Unquoted(tok)) if numbered || !numbered => {""", "custom:", note="guard still mentions numbered: must be seen through")
